@@ -75,29 +75,29 @@ Theorem c09_capacity_formula :
 Proof. exact capacity_formula. Qed.
 Print Assumptions c09_capacity_formula.
 
-(* in-flight = admitted - completed, after every trace *)
+(* in-flight = let_in - completed, after every trace *)
 Theorem c09_inflight_conservation :
   forall (F : Type) (ewma : F -> Z -> F) (floorF : F -> Z) (capF : Z -> Z -> Z) (f0 : F) window nb cpu t0,
   1 <= nb -> nb <= window -> forall s0, new_shed F f0 window nb cpu t0 = Ok s0 ->
   forall ops, sops_ok ops ->
   let x := grun F ewma floorF capF ((s0, t0), g0) ops in
-  flying (fst (fst x)) = admitted_n (g_tr (snd x)) - done_n (g_tr (snd x)).
+  flying (fst (fst x)) = let_in_n (g_tr (snd x)) - done_n (g_tr (snd x)).
 Proof. exact inflight_conservation. Qed.
 Print Assumptions c09_inflight_conservation.
 
 (* ... so it is never negative while completions do not outnumber admissions, and it is back to
-   zero once every admitted request has reported Pass or Fail *)
+   zero once every let_in request has reported Pass or Fail *)
 Theorem c09_inflight_returns_to_zero :
   forall (F : Type) (ewma : F -> Z -> F) (floorF : F -> Z) (capF : Z -> Z -> Z) (f0 : F) window nb cpu t0,
   1 <= nb -> nb <= window -> forall s0, new_shed F f0 window nb cpu t0 = Ok s0 ->
   forall ops, sops_ok ops ->
   let x := grun F ewma floorF capF ((s0, t0), g0) ops in
-  (done_n (g_tr (snd x)) <= admitted_n (g_tr (snd x)) -> 0 <= flying (fst (fst x))) /\
-  (done_n (g_tr (snd x)) = admitted_n (g_tr (snd x)) -> flying (fst (fst x)) = 0).
+  (done_n (g_tr (snd x)) <= let_in_n (g_tr (snd x)) -> 0 <= flying (fst (fst x))) /\
+  (done_n (g_tr (snd x)) = let_in_n (g_tr (snd x)) -> flying (fst (fst x)) = 0).
 Proof. exact inflight_zero. Qed.
 Print Assumptions c09_inflight_returns_to_zero.
 
-(* the hot flag clears (and the request is admitted) at the first Allow, CPU below threshold, that
+(* the hot flag clears (and the request is let_in) at the first Allow, CPU below threshold, that
    comes a full second after the last overload stamp -- in any state *)
 Theorem c09_hot_clears_after_1s :
   forall (F : Type) (ewma : F -> Z -> F) (floorF : F -> Z) (capF : Z -> Z -> Z) (f0 : F) (s : shed F) now,
